@@ -33,3 +33,36 @@ Theorem C06_flushed_frame_available : forall fl content rest, frame_ok fl conten
   next_frame (SrcBytes ([] ++ emit_frame fl content ++ rest)) = inr (fl, content, SrcBytes rest).
 Proof. exact resume_after_append. Qed.
 Print Assumptions C06_flushed_frame_available.
+
+(* ---- stream level (Stream/InterleaveFacts.v): after the writer has flushed fr1 (and possibly emitted a
+   strict prefix p of the next frame), a reader obtains exactly the records of fr1, with the right values,
+   and then end of data (p empty) or truncation (p a strict prefix) - never a record of the unflushed
+   frame; and under ANY interleaving of "flush more frames / emit part of the next one" with "read until
+   end of data" every record is delivered exactly once, in order ---- *)
+From Stef Require Import Bits Codecs Schema Wire WireOk Frame FrameFacts Reader Writer FrameContentFacts FrameContentInv StreamFactsBase StreamFacts LimitsCompose InterleaveFacts.
+
+Theorem C06_flushed_prefix_readable : forall (sizes : N -> N) (fuel : nat) (t : etree) (fr1 fr2 : list (N * list wire)) (ws0 : wst) (r0 : reader) (p : list N) (kr k : nat),
+  rd_tree r0 = t -> rd_left r0 = 0 ->
+  rd_src r0 = SrcBytes (emit_all (stream_encode t ws0 fr1) ++ p) ->
+  pending t (stream_end t ws0 fr1) fr2 p ->
+  carry ws0 (rd_st r0) -> acc_empty ws0 -> outside_default ws0 t ->
+  NoDup (tree_cols t) -> fc_ok t ->
+  stream_ok sizes fuel t (fr1 ++ fr2) ws0 (rd_rec r0) (rd_td r0) = true ->
+  (length fr1 < kr)%nat -> (length (concat (map snd fr1)) < k)%nat ->
+  read_all sizes fuel kr k r0 = (concat (map snd fr1), stream_values t fr1 (rd_rec r0) (rd_td r0), Some (pending_result p)) /\
+  (exists rest : list N, emit_all (stream_encode t ws0 (fr1 ++ fr2)) = (emit_all (stream_encode t ws0 fr1) ++ p) ++ rest).
+Proof. exact flushed_prefix_readable. Qed.
+Print Assumptions C06_flushed_prefix_readable.
+
+Theorem C06_interleaved_read : forall (sizes : N -> N) (fuel kr kk : nat) (t : etree) (ws0 : wst) (frames : list (N * list wire)) (v0 : rnode) (td0 : Apply.tdicts),
+  NoDup (tree_cols t) -> fc_ok t ->
+  stream_ok sizes fuel t frames ws0 v0 td0 = true ->
+  (length frames < kr)%nat -> (length (concat (map snd frames)) < kk)%nat ->
+  forall s : istate, ireach sizes fuel kr kk t ws0 frames v0 td0 s ->
+  exists m : nat,
+    i_out s = firstn m (concat (map snd frames)) /\
+    (m <= length (concat (map snd (firstn (i_k s) frames))))%nat /\
+    (exists F1 G : list (N * list wire), frames = F1 ++ G /\ (length F1 <= i_k s)%nat /\ i_out s = concat (map snd F1) /\ i_vals s = stream_values t F1 v0 td0) /\
+    (i_eod s = true -> i_out s = concat (map snd (firstn (i_k s) frames)) /\ i_vals s = stream_values t (firstn (i_k s) frames) v0 td0).
+Proof. exact interleaved_read. Qed.
+Print Assumptions C06_interleaved_read.
